@@ -144,6 +144,103 @@ fn run_group(w: &World, si: usize, seq: &[u8], parts: &[usize], only_n: Option<u
     (out, evals, nontrivial)
 }
 
+/// the same law in CSV and text format (one file): the limited output is the header (CSV) plus the first n records of
+/// the unlimited output in that format
+fn format_group(w: &World, si: usize, seq: &[u8]) -> (Vec<Failure>, u64) {
+    use sqlgrep::executor::OutputFormat;
+    let alpha = jlines();
+    let lines: Vec<&str> = seq.iter().map(|i| alpha[*i as usize]).collect();
+    let (stmt_text, kind) = &w.stmts[si];
+    let files = sut::files_from(&lines, &[lines.len()]);
+    let base_stmt = sut::parse(stmt_text).expect(stmt_text);
+    let mut out = Vec::new();
+    let mut evals = 0u64;
+    for (fname, fmt) in [("csv", OutputFormat::CSV(";".into())), ("text", OutputFormat::Text)] {
+        let unl = match sut::run_files(&w.tables, &base_stmt, &[files[0].as_slice()], FileRunOpts { format: fmt.clone(), ..Default::default() }) {
+            Outcome::Ok(fr) if fr.result.is_ok() => strip_blank(&fr.printed),
+            _ => continue,
+        };
+        let header = if fname == "csv" && !unl.is_empty() { 1 } else { 0 };
+        let records = &unl[header..];
+        for n in 0..=records.len() + 1 {
+            evals += 1;
+            let text = format!("{} LIMIT {}", stmt_text, n);
+            let st = sut::parse(&text).expect(&text);
+            let got = match sut::run_files(&w.tables, &st, &[files[0].as_slice()], FileRunOpts { format: fmt.clone(), ..Default::default() }) {
+                Outcome::Ok(fr) if fr.result.is_ok() => Some(strip_blank(&fr.printed)),
+                _ => None,
+            };
+            let want: Vec<String> = records.iter().take(n).cloned().collect();
+            let ok = match &got {
+                Some(g) if g.is_empty() => want.is_empty(),
+                Some(g) => g.len() >= header && g[..header] == unl[..header] && g[header..] == want[..],
+                None => false,
+            };
+            if !ok {
+                out.push(fail(
+                    format!("limit:{}:format-{}:{}", kind, fname, if n == 0 { "n=0" } else { "records-differ" }),
+                    format!("`{}` in {} format over {:?}: printed {:?}, expected the first {} records {:?}", text, fname, seq, got, n, want),
+                    json!({"stmt": si, "statement": text, "seq": seq, "lines": lines, "parts": [seq.len()], "n": n, "format": fname}),
+                    json!(want),
+                    json!(got),
+                    (seq.len() * 1000 + n) as u64,
+                ));
+                break;
+            }
+        }
+    }
+    (out, evals)
+}
+
+const HUGE_LIMITS: [&str; 6] = ["2147483648", "4294967295", "4294967296", "1000000000000", "9223372036854775806", "9223372036854775807"];
+
+/// LIMIT values far beyond any input, in child processes with a memory limit: the output is the unlimited output
+fn huge_limit_layer(w: &World, col: &Collector) {
+    let lines: Vec<&str> = jlines();
+    let input = format!("{}\n", lines.join("\n"));
+    let defs = format!("{}\n{}", JDEF, JDEF_U);
+    let mut n = 0u64;
+    for (si, (stmt_text, kind)) in w.stmts.iter().enumerate() {
+        let base_stmt = sut::parse(stmt_text).expect(stmt_text);
+        let unl = match sut::run_files(&w.tables, &base_stmt, &[input.as_bytes()], FileRunOpts::default()) {
+            Outcome::Ok(fr) if fr.result.is_ok() => strip_blank(&fr.printed),
+            _ => continue,
+        };
+        for lim in HUGE_LIMITS {
+            let text = format!("{} LIMIT {}", stmt_text, lim);
+            n += 1;
+            col.eval(1);
+            col.nontrivial(h64(&("huge-limit", si, lim)));
+            let r = sut::run_stmt_child(&defs, &text, "json", &[Some(input.as_bytes())], 30);
+            let dev = match &r {
+                sut::ChildOut::Done(j) if j["outcome"] == "ok" && j["run"]["result"] == "ok" => {
+                    let got: Vec<String> = j["run"]["printed"].as_array().map(|a| a.iter().filter_map(|x| x.as_str()).filter(|l| !l.is_empty()).map(|l| l.to_string()).collect()).unwrap_or_default();
+                    if got == unl { None } else { Some("output-differs".to_string()) }
+                }
+                sut::ChildOut::Done(j) if j["outcome"] == "panic" => Some(format!("panic:{}", j["signature"].as_str().unwrap_or(""))),
+                sut::ChildOut::Done(j) => Some(format!("{}", j["outcome"].as_str().unwrap_or("error"))),
+                sut::ChildOut::Signal(_) => Some("killed-by-signal (allocation failure / abort)".to_string()),
+                sut::ChildOut::Timeout => Some("no result within 30 s".to_string()),
+                sut::ChildOut::Other(e) => {
+                    col.machinery(format!("statement child: {}", e));
+                    None
+                }
+            };
+            if let Some(d) = dev {
+                col.fail(fail(
+                    format!("limit:{}:huge-n:{}", kind, d),
+                    format!("`{}`: {} (the unlimited statement prints {} records)", text, d, unl.len()),
+                    json!({"layer": "huge-limit", "stmt": si, "statement": text, "limit": lim}),
+                    json!(unl),
+                    json!(format!("{:?}", r)),
+                    si as u64,
+                ));
+            }
+        }
+    }
+    col.layer("LIMIT far beyond the input (child processes, 6 GiB address space)", n, true, json!({"limits": HUGE_LIMITS}));
+}
+
 pub fn run(ctx: &Ctx) -> i32 {
     let col = Collector::new();
     let w = world();
@@ -155,6 +252,13 @@ pub fn run(ctx: &Ctx) -> i32 {
     let (done, complete) = par_for_budget(ctx, total, 8, |idx| {
         let si = (idx % nst) as usize;
         let seq = seq_decode(idx / nst, k, maxlen);
+        {
+            let (fs, evals) = format_group(&w, si, &seq);
+            col.eval(evals);
+            for f in fs {
+                col.fail(f);
+            }
+        }
         for parts in splits(seq.len(), 3, true) {
             let (fs, evals, nt) = run_group(&w, si, &seq, &parts, None);
             col.eval(evals);
@@ -173,6 +277,7 @@ pub fn run(ctx: &Ctx) -> i32 {
             }
         }
     });
+    huge_limit_layer(&w, &col);
     col.layer("limit x files", done, complete, json!({"statements": nst, "line_sequences": nseq, "max_len": maxlen, "max_files": 3}));
     // an aggregate result requested again from the same engine (update-only lines, result, more lines, result) keeps the first n groups
     {
@@ -316,6 +421,16 @@ pub fn run(ctx: &Ctx) -> i32 {
 
 pub fn replay(case: &J) -> Vec<Failure> {
     let w = world();
+    if case["layer"].as_str() == Some("huge-limit") {
+        let col = Collector::new();
+        huge_limit_layer(&w, &col);
+        let f = col.failures.lock().unwrap();
+        return f.values().flat_map(|v| v.iter().cloned()).filter(|f| f.case["statement"] == case["statement"]).collect();
+    }
+    if let Some(fmt) = case["format"].as_str() {
+        let seq: Vec<u8> = case["seq"].as_array().unwrap().iter().map(|x| x.as_u64().unwrap() as u8).collect();
+        return format_group(&w, case["stmt"].as_u64().unwrap() as usize, &seq).0.into_iter().filter(|f| f.case["format"].as_str() == Some(fmt)).collect();
+    }
     let seq: Vec<u8> = case["seq"].as_array().unwrap().iter().map(|x| x.as_u64().unwrap() as u8).collect();
     let parts: Vec<usize> = case["parts"].as_array().unwrap().iter().map(|x| x.as_u64().unwrap() as usize).collect();
     run_group(&w, case["stmt"].as_u64().unwrap() as usize, &seq, &parts, Some(case["n"].as_u64().unwrap() as usize)).0
